@@ -143,13 +143,16 @@ theorem fragment_ok (x : In) (fs : List Frag)
     split
     · exact List.Sublist.refl _
     · exact List.Sublist.map _ List.filter_sublist
-  refine ⟨?_, ?_, ?_, ?_, ?_, ?_, ?_, ?_, ?_, ?_⟩
+  refine ⟨?_, ?_, ?_, ?_, ?_, ?_, ?_, ?_, ?_, ?_, ?_⟩
   · intro e
     have : fs = [] := by simpa using e
     exact never_empty x (this ▸ h)
   · intro o ho
     obtain ⟨f, hf, rfl⟩ := List.mem_map.mp ho
     exact size_bound _ x fs hblk hpl h f hf
+  · intro o ho
+    obtain ⟨f, _, rfl⟩ := List.mem_map.mp ho
+    rfl
   · intro o ho
     obtain ⟨f, _, rfl⟩ := List.mem_map.mp ho
     rfl
